@@ -588,4 +588,14 @@ theorem fit_no_raise_emits (S : Schema) (hS : S ∈ familySchemas) (doc : Node) 
     (family_labelsOK _ hS) (family_textStableC _ hS) (family_closable _ hS) (family_leafOk _ hS) doc f t sl hv
     hattrs htop hft ht hwf hg hst hloose
 
+/-- `PM.C11.fit_raises_only_at_sites` with its schema guards discharged for the bundled schema family -/
+theorem fit_raises_only_at_sites (S : Schema) (hS : S ∈ familySchemas) (doc : Node) (f t : Nat) (sl : Slice)
+    (hv : C01.Valid S doc) (hattrs : S.nodeAttrsOK doc = true) (htop : S.isTextblockO (S.tyOf doc) = false)
+    (hft : f ≤ t) (ht : t ≤ fsize doc.kids) (h : replaceStep S doc f t sl = .error .raises) :
+    (∃ rf st0 st', doc.resolve f = some rf ∧ fitInit S rf sl = .ok st0 ∧ FitReach S st0 st' ∧
+    (st'.unplaced.size == 0) = false ∧ (st'.unplaced.wf = false ∨ st'.unplaced.sitesOk S = false)) ∧
+    (∃ w a b, requestBadState S doc f t sl = some (w, a, b) ∧ (w && a && b) = false) :=
+  PM.C11.fit_raises_only_at_sites S (family_det _ hS) (family_fillersOK _ hS) (family_wrapOK _ hS)
+    (family_labelsOK _ hS) (family_textStableC _ hS) (family_closable _ hS) doc f t sl hv hattrs htop hft ht h
+
 end PM.Family.C11
